@@ -52,6 +52,7 @@ c.finish(
         "the pass cap itself (blocks walked <= maxProgPasses x blocks allocated + 1, dct_pass_cap) is tied through the hook VerifProgVisits, which reads the real decoder's counter - a change that stops counting some visits is seen by the counter comparison and by the watchdog, not by the theorem",
         "DCT frame kinds: DCTFrames.v models only which SOS may follow which and when rows are written (not the entropy decoding); it is compared on every SOF marker C0..CF x nine scan scripts x 1/3/4 components, and every such body is held to the size of the image it declares (output-bound); rows already written when a file is refused can be lost in the decoder's output buffer, so only the verdict is compared then",
         "budget identity along the chain is measured, not proved for the implementation: JBIG2, DCT, CCITT and predictor stages behind Flate/LZW/RunLength/ASCIIHex stages with enormously expanding bodies are held to StreamBudget(RAW length) by the live-heap and TotalAlloc oracles (chain_memory_bound states the shared cell for the model)",
+        "JBIG2 is not modelled: structurally valid but hostile symbol dictionaries (Huffman with refinement and aggregation, every reference ID, several symbols per height class, imported symbols; Huffman without refinement; the package's encoders for Huffman-refinement and arithmetic-aggregation dictionaries and for arithmetic/Huffman/refining text regions, mutated; refinement and text regions referring to missing, repeated or wrong segments, with and without a page) are judged by the oracle only (no panic, malformed classification, resource bounds)",
         "CCITT 2-D bodies packed by the harness from chosen codes (dense reference row, then VR/VL, pass or V0 storms, Columns up to 2^18 quick / 2^20 thorough) run under a tighter watchdog of 0.75 s + 5 us per byte (the unchanged tree needs < 0.05 s)",
         "output bounds of CCITTFax (rows <= min(MaxImageHeight, MaxImagePixels/Columns)), JBIG2 (<= StreamBudget(rawLen)) and DCT (<= MaxImageBytes) are measured on hostile headers, not proved (those decoders are not modelled)",
         "the models read each decoder with one Read loop over a buffer larger than the data; RunLength may report a clean end instead of Malformed when a consumer buffer boundary falls inside a truncated literal run (both outcomes satisfy C08); the harness compares RunLength stages only where no boundary can fall (note in coq/C08/Simple.v)",
@@ -71,7 +72,7 @@ c.finish(
         "hand-written Gallina models coq/C08/{Simple,LZW,Predict,Params,Chain,Classify,Run}.v of filter.go, container.go, internal/filter/{asciihex,ascii85,runlength,lzw,predict}, tied by correspondence",
         "translated constants and functions coq/Gen/Gen_C08.v, Gen_Limits.v (StreamBudget, MaxXRefEntries, FlatePredictor.isValid, LZW and limit constants)",
         "hooks /repo/verif_c08.go (VerifAsMalformedFilter, VerifNewStreamReaderAt) and internal/filter/{dct/jpeg,predict,jbig2,ccittfax}/verif_c08.go "
-        "(VerifPlaneBytes, VerifProgBlock, VerifBufferLens, VerifPoolTrace, VerifMainTable, VerifRunTables, VerifStates): they call the real functions and report sizes; no logic",
+        "(VerifPlaneBytes, VerifProgBlock, VerifProgVisits, VerifBufferLens, VerifPoolTrace, VerifWorkLimit, VerifHuffCode, VerifSymCodeLen, VerifMainTable, VerifRunTables, VerifStates): they call the real functions and report sizes; no logic",
         "translated constants and functions coq/Gen/Gen_C08dct.v (jpeg blockSize, bytesPerProgBlock, maxComponents, maxProgPasses; ccittfax decoder states; jbig2 workLimit and its constants)",
     ],
     partial=[
